@@ -267,3 +267,86 @@ mutant("sgr-division-borders-first", "C03", GRAPH, """                + sum([[x,
 variant("sgr-fstring", "C03", SUGAR, 'return "(bool b{})".format(v.id)', 'return f"(bool b{v.id})"')
 variant("sgr-startswith", "C03", SUGAR, 'if "unsat" in out[0]:', 'if out[0].startswith("unsat"):')
 variant("sgr-table-reordered", "C03", SUGAR, '    Op.NEG: "-",\n    Op.ADD: "+",', '    Op.ADD: "+",\n    Op.NEG: "-",')
+
+# ---- C02 ---------------------------------------------------------------------------------------
+mutant("ref-store-sol", "C02", SOLVER, """                    and answer[i] != self.variables[i].sol
+                ):
+                    answer[i] = None""", """                    and answer[i] != self.variables[i].sol
+                ):
+                    answer[i] = self.variables[i].sol""", "REF-1")
+mutant("ref-demote-equal", "C02", SOLVER, "and answer[i] != self.variables[i].sol", "and answer[i] == self.variables[i].sol", "REF-1")
+mutant("ref-cap", "C02", SOLVER, """            if not csp_solver.solve():
+                break
+
+            for i in range(n_var):""", """            if not csp_solver.solve():
+                break
+            if len(difference_cond) > 100:
+                break
+
+            for i in range(n_var):""", "REF-2")
+mutant("ref-exit-inverted", "C02", SOLVER, """            csp_solver.add_constraint(BoolExpr(Op.OR, difference_cond))
+            if not csp_solver.solve():
+                break""", """            csp_solver.add_constraint(BoolExpr(Op.OR, difference_cond))
+            if csp_solver.solve():
+                break""", "REF-2")
+mutant("ref-clause-and", "C02", SOLVER, "csp_solver.add_constraint(BoolExpr(Op.OR, difference_cond))", "csp_solver.add_constraint(BoolExpr(Op.AND, difference_cond))", "REF-3")
+mutant("ref-clause-equal", "C02", SOLVER, "difference_cond.append(self.variables[i] != a)", "difference_cond.append(self.variables[i] == a)", "REF-3")
+mutant("ref-clause-all-vars", "C02", SOLVER, """                if self.is_answer_key[i] and a is not None:
+                    difference_cond.append(self.variables[i] != a)""", """                if a is not None:
+                    difference_cond.append(self.variables[i] != a)""", "REF-3")
+mutant("ref-clause-stale", "C02", SOLVER, """        while True:
+            difference_cond = []
+            for i in range(n_var):""", """        difference_cond = []
+        while True:
+            for i in range(n_var):""", "REF-3")
+mutant("ref-writeback-all", "C02", SOLVER, """        for i in range(n_var):
+            if self.is_answer_key[i]:
+                self.variables[i].sol = answer[i]
+        return True""", """        for i in range(n_var):
+            self.variables[i].sol = answer[i]
+        return True""", "REF-4")
+mutant("ref-writeback-short", "C02", SOLVER, """        for i in range(n_var):
+            if self.is_answer_key[i]:
+                self.variables[i].sol = answer[i]
+        return True""", """        for i in range(n_var - 1):
+            if self.is_answer_key[i]:
+                self.variables[i].sol = answer[i]
+        return True""", "REF-4")
+mutant("ref-first-unsat-true", "C02", SOLVER, """            # inconsistent problem
+            return False""", """            # inconsistent problem
+            return True""", "REF-5")
+mutant("ref-init-all", "C02", SOLVER, """            if self.is_answer_key[i]:
+                answer[i] = self.variables[i].sol
+
+        while True:""", """            if True:
+                answer[i] = self.variables[i].sol
+
+        while True:""", "REF-5")
+mutant("ref-sugar-ext-fallback", "C02", SUGAR, """class SugarExtendedBackend(SugarLikeBackend):
+    def _call_solver""", """class SugarExtendedBackend(SugarLikeBackend):
+    def solve_irrefutably(self, is_answer_key):
+        raise NotImplementedError
+
+    def _call_solver""", "REF-6")
+mutant("ref-selector-swallow", "C02", SOLVER, """        except NotImplementedError:
+            pass""", """        except Exception:
+            pass""", "REF-6")
+variant("ref-rename-answer", "C02", SOLVER, """            for i in range(n_var):
+                if (
+                    self.is_answer_key[i]
+                    and answer[i] is not None
+                    and answer[i] != self.variables[i].sol
+                ):
+                    answer[i] = None""", """            for k in range(n_var):
+                if self.is_answer_key[k] and answer[k] is not None:
+                    if answer[k] != self.variables[k].sol:
+                        answer[k] = None""")
+variant("ref-exit-else", "C02", SOLVER, """            if not csp_solver.solve():
+                break
+
+            for i in range(n_var):""", """            if csp_solver.solve():
+                pass
+            else:
+                break
+
+            for i in range(n_var):""")
